@@ -333,9 +333,14 @@ func driverMain(id, tier string) int {
 		return 1
 	}
 	budget := p.ShardBudget(tier)
-	order := make([]int, len(shards))
-	for i := range order {
-		order[i] = i
+	order := make([]int, 0, len(shards))
+	for i := range shards {
+		// VERIF_ONLY: development aid (never set by a registered command) - run only the
+		// scenarios whose name contains the substring
+		if only := os.Getenv("VERIF_ONLY"); only != "" && !strings.Contains(shards[i].Name, only) {
+			continue
+		}
+		order = append(order, i)
 	}
 	sort.SliceStable(order, func(a, b int) bool { return shards[order[a]].Weight > shards[order[b]].Weight })
 	if seed != 0 && len(order) > 1 {
